@@ -869,7 +869,9 @@ func (app *App) calcActiveNodes(clusterState, clusterStateDcs map[string]*nodest
 			continue
 		}
 		if !node.PingOk {
-			if node.PingDubious || clusterStateDcs[host].PingOk {
+			// the host may have been registered after the DCS view was collected: no entry there
+			nodeStateFromDcs := clusterStateDcs[host]
+			if node.PingDubious || (nodeStateFromDcs != nil && nodeStateFromDcs.PingOk) {
 				// we can't rely on ping and slave status if ping was dubious
 				if slices.Contains(oldActiveNodes, host) {
 					app.logger.Warn().Msgf("calc active nodes: %s is dubious or keep health lock in dcs, keeping active...", host)
